@@ -18,6 +18,9 @@ LEAN = dict(
         "stored_survives_create",
         "stored_survives_delete",
         "stored_survives_reopen",
+        "stored_survives_copy",
+        "stored_survives_move",
+        "stored_follows_move",
         "one_per_schema",
         "second_object_refused",
         "aux_or_unknown_refused",
